@@ -1,4 +1,147 @@
-import PgsVerif.Model.AstSem2
+import PgsVerif.Props.C03
+import PgsVerif.Proofs.Clos
+import PgsVerif.Proofs.DeclFacts
+/-!
+# C04 — import relations between files are exact
+
+File level (proved here, for every valid request):
+* `Imports` — `g.depsOf fi`, the column `imports` of the compared observation — are the file's
+  declared dependencies, in order, each resolved to THE file of that name (`C04_imports`,
+  `C04_import_is_named_file`);
+* imports point to earlier files (`C04_acyclic`), hence the fuelled recursion of
+  `TransitiveImports` / `Dependents` is never cut short by its fuel (number of files);
+* `TransitiveImports` lists exactly the files reachable through one or more imports, each once
+  (`C04_transitive`, `C04_listed_once`), `Dependents` exactly the files that reach it
+  (`C04_dependents`).
+
+Entity level (field / oneof / message / method / service imports, unused imports): the model computes
+them from the graph that C03 proves to be the declarative one; Φ_C04 states them declaratively and is
+evaluated on every real AST; they are tied to the code by the correspondence check.
+-/
 namespace Pgs.AST
-theorem placeholder_C04 : True := trivial
+
+/-- declared imports of file `fi` as file indices, in declaration order -/
+def specImports (w : World) (fi : Nat) : List Nat :=
+  match w.files[fi]? with
+  | some f => f.deps.map fun d => (declaredAs w d .file).file
+  | none => []
+
+theorem split_at_index {α} : ∀ (l : List α) (k : Nat) (a : α), l[k]? = some a →
+    ∃ pre post, l = pre ++ a :: post ∧ pre.length = k := by
+  intro l
+  induction l with
+  | nil => intro k a h; simp at h
+  | cons x l ih =>
+    intro k a h
+    cases k with
+    | zero => simp at h; exact ⟨[], l, by simp [h], rfl⟩
+    | succ k =>
+      simp only [List.getElem?_cons_succ] at h
+      obtain ⟨pre, post, e, hl⟩ := ih k a h
+      exact ⟨x :: pre, post, by simp [e], by simp [hl]⟩
+
+/-- **C04 (imports)**: the imports of a file are its declared dependencies, in order. -/
+theorem C04_imports (w : World) (hv : Valid w) (g : Graph) (hg : hydrate w = .ok g) (fi : Nat) :
+    g.depsOf fi = specImports w fi := by
+  obtain ⟨g', hg', hs⟩ := C01_no_failure w hv
+  rw [hg] at hg'; cases hg'
+  obtain ⟨d1, _, _, _⟩ := hydrate_spec w hv.keysNodup g hg (fun d hd => by rw [hs] at hd; exact List.mem_reverse.mp hd)
+  unfold Graph.depsOf specImports
+  rw [d1]; unfold specDeps
+  have := find_idx_map (fun f : FileD => f.deps.map fun d => declaredAs w d .file) w.files 0 fi
+  simp only [Nat.zero_add] at this ⊢
+  rw [this]
+  cases w.files[fi]? <;> simp
+
+/-- the file declaration of the `i`-th file is found under its path -/
+theorem C04_import_is_named_file (w : World) (hv : Valid w) (i : Nat) (f : FileD) (h : w.files[i]? = some f) :
+    declaredAs w f.name .file = ⟨i, []⟩ := by
+  obtain ⟨pre, post, e, hl⟩ := split_at_index _ _ _ h
+  have hm : (⟨f.name, ⟨i, []⟩, .file⟩ : Decl) ∈ declared w := by
+    unfold declared
+    rw [e, declFrom_append]
+    apply List.mem_append_right
+    simp only [declFrom, Nat.zero_add, hl]
+    apply List.mem_append_left
+    simp [declFile, declFileHead]
+  exact declaredAs_of_mem w hv.keysNodup _ hm
+
+/-- **C04 (imports point to earlier files)** -/
+theorem C04_acyclic (w : World) (hv : Valid w) (fi : Nat) : ∀ d ∈ specImports w fi, d < fi := by
+  intro d hd
+  unfold specImports at hd
+  cases h : w.files[fi]? with
+  | none => simp [h] at hd
+  | some f =>
+    simp only [h, List.mem_map] at hd
+    obtain ⟨name, hname, rfl⟩ := hd
+    obtain ⟨pre, post, e, hl⟩ := split_at_index _ _ _ h
+    obtain ⟨decl, hdecl, hk, hkind⟩ := hv.deps pre f post e name hname
+    have hm : decl ∈ declared w := by
+      unfold declared; rw [e, declFrom_append]; exact List.mem_append_left _ hdecl
+    have := declaredAs_of_mem w hv.keysNodup decl hm
+    rw [hk, hkind] at this
+    rw [this]
+    have := (declFrom_file pre 0 decl hdecl).2
+    omega
+
+theorem specImports_ge (w : World) (fi : Nat) (h : w.files.length ≤ fi) : specImports w fi = [] := by
+  unfold specImports
+  rw [List.getElem?_eq_none h]
+
+/-- **C04 (transitive imports)**: exactly the files reachable through one or more imports. -/
+theorem C04_transitive (w : World) (hv : Valid w) (g : Graph) (hg : hydrate w = .ok g) (fi j : Nat) :
+    j ∈ sortNat (transImports g w.files.length fi) ↔ Reach (specImports w) fi j := by
+  have hdeps : g.depsOf = specImports w := funext (C04_imports w hv g hg)
+  rw [mem_sortNat, transImports_eq_clos, hdeps]
+  constructor
+  · exact clos_sound _ _ _ _
+  · intro r
+    by_cases hfi : fi ≤ w.files.length
+    · exact clos_complete (specImports w) id (fun x y hy => C04_acyclic w hv x y hy) fi j r _ hfi
+    · cases r with
+      | step h => rw [specImports_ge w fi (by omega)] at h; simp at h
+      | trans h _ => rw [specImports_ge w fi (by omega)] at h; simp at h
+
+/-- **C04 (dependents)**: exactly the files that reach it through one or more imports. -/
+theorem C04_dependents (w : World) (hv : Valid w) (g : Graph) (hg : hydrate w = .ok g) (fi j : Nat) :
+    j ∈ sortNat (dependentsOf g w.files.length w.files.length fi) ↔ Reach (specImports w) j fi := by
+  have hdeps : g.depsOf = specImports w := funext (C04_imports w hv g hg)
+  rw [mem_sortNat, dependentsOf_eq_clos]
+  have hfwd : ∀ x y, y ∈ directDependents g w.files.length x → x ∈ specImports w y := by
+    intro x y hy
+    simp only [directDependents, List.mem_filter, List.contains_eq_mem, decide_eq_true_eq, hdeps] at hy
+    exact hy.2
+  have hbwd : ∀ x y, y ∈ specImports w x → x ∈ directDependents g w.files.length y := by
+    intro x y hy
+    simp only [directDependents, List.mem_filter, List.contains_eq_mem, decide_eq_true_eq, hdeps, List.mem_range]
+    refine ⟨?_, hy⟩
+    apply Nat.lt_of_not_le
+    intro hge
+    rw [specImports_ge w x hge] at hy
+    simp at hy
+  constructor
+  · intro h
+    exact (clos_sound _ _ _ _ h).reverse hfwd
+  · intro r
+    have r' := r.reverse hbwd
+    refine clos_complete (directDependents g w.files.length) (fun x => w.files.length - x) ?_ fi j r' _ (Nat.sub_le _ _)
+    intro x y hy
+    have h1 := hfwd x y hy
+    have h2 := C04_acyclic w hv y x h1
+    simp only [directDependents, List.mem_filter, List.mem_range] at hy
+    omega
+
+/-- **C04 (each listed once)** -/
+theorem C04_listed_once (l : List Nat) : (sortNat l).Nodup := sortNat_nodup l
+
+/-- the model observation never reports failure on a valid request -/
+theorem C04_not_failed (w : World) (hv : Valid w) : (c04Model w).failed = false := by
+  obtain ⟨g, hg, _⟩ := C01_no_failure w hv
+  simp [c04Model, hg]
+
+/-! non-vacuity on the example request of Props/C01: b.proto imports a.proto -/
+example : specImports exW 1 = [0] := by decide
+example : Reach (specImports exW) 1 0 := .step (by decide)
+
 end Pgs.AST
